@@ -27,11 +27,34 @@ Proof.
   intros beta e1 e2 x1 x2 z1 z2 z3 i j k l Hi Hj Hk Hl Hreg.
   destruct i as [|[|i]]; [| |exfalso; lia]; (destruct j as [|[|j]]; [| |exfalso; lia]);
   (destruct k as [|[|k]]; [| |exfalso; lia]); (destruct l as [|[|l]]; [| |exfalso; lia]);
-  first [ now apply free_chi_0000 | now apply free_chi_1111 | now apply free_chi_0101 | now apply free_chi_0110
-        | now apply free_chi_1010 | now apply free_chi_1001
-        | rewrite (energies2 F), (gibbs2 F), (chi0_free_offdiag F) by reflexivity;
-          first [ apply chi_0001_zero | apply chi_0010_zero | apply chi_0011_zero | apply chi_0100_zero | apply chi_0111_zero
-                | apply chi_1000_zero | apply chi_1011_zero | apply chi_1100_zero | apply chi_1101_zero | apply chi_1110_zero ] ].
+  match goal with
+  | |- chi _ _ _ _ _ _ (Cm F 2 O) (Cm F 2 O) (CXm F 2 O) (CXm F 2 O) _ _ _ = _ => exact (free_chi_0000 F beta e1 e2 x1 x2 z1 z2 z3 Hreg)
+  | |- chi _ _ _ _ _ _ (Cm F 2 O) (Cm F 2 O) (CXm F 2 O) (CXm F 2 (S O)) _ _ _ = _ =>
+      rewrite (energies2 F), (gibbs2 F), (chi0_free_offdiag F) by reflexivity; exact (chi_0001_zero F _ _ _ _ _ _ _ _ _ _ _ _ _)
+  | |- chi _ _ _ _ _ _ (Cm F 2 O) (Cm F 2 O) (CXm F 2 (S O)) (CXm F 2 O) _ _ _ = _ =>
+      rewrite (energies2 F), (gibbs2 F), (chi0_free_offdiag F) by reflexivity; exact (chi_0010_zero F _ _ _ _ _ _ _ _ _ _ _ _ _)
+  | |- chi _ _ _ _ _ _ (Cm F 2 O) (Cm F 2 O) (CXm F 2 (S O)) (CXm F 2 (S O)) _ _ _ = _ =>
+      rewrite (energies2 F), (gibbs2 F), (chi0_free_offdiag F) by reflexivity; exact (chi_0011_zero F _ _ _ _ _ _ _ _ _ _ _ _ _)
+  | |- chi _ _ _ _ _ _ (Cm F 2 O) (Cm F 2 (S O)) (CXm F 2 O) (CXm F 2 O) _ _ _ = _ =>
+      rewrite (energies2 F), (gibbs2 F), (chi0_free_offdiag F) by reflexivity; exact (chi_0100_zero F _ _ _ _ _ _ _ _ _ _ _ _ _)
+  | |- chi _ _ _ _ _ _ (Cm F 2 O) (Cm F 2 (S O)) (CXm F 2 O) (CXm F 2 (S O)) _ _ _ = _ => exact (free_chi_0101 F beta e1 e2 x1 x2 z1 z2 z3 Hreg)
+  | |- chi _ _ _ _ _ _ (Cm F 2 O) (Cm F 2 (S O)) (CXm F 2 (S O)) (CXm F 2 O) _ _ _ = _ => exact (free_chi_0110 F beta e1 e2 x1 x2 z1 z2 z3 Hreg)
+  | |- chi _ _ _ _ _ _ (Cm F 2 O) (Cm F 2 (S O)) (CXm F 2 (S O)) (CXm F 2 (S O)) _ _ _ = _ =>
+      rewrite (energies2 F), (gibbs2 F), (chi0_free_offdiag F) by reflexivity; exact (chi_0111_zero F _ _ _ _ _ _ _ _ _ _ _ _ _)
+  | |- chi _ _ _ _ _ _ (Cm F 2 (S O)) (Cm F 2 O) (CXm F 2 O) (CXm F 2 O) _ _ _ = _ =>
+      rewrite (energies2 F), (gibbs2 F), (chi0_free_offdiag F) by reflexivity; exact (chi_1000_zero F _ _ _ _ _ _ _ _ _ _ _ _ _)
+  | |- chi _ _ _ _ _ _ (Cm F 2 (S O)) (Cm F 2 O) (CXm F 2 O) (CXm F 2 (S O)) _ _ _ = _ => exact (free_chi_1001 F beta e1 e2 x1 x2 z1 z2 z3 Hreg)
+  | |- chi _ _ _ _ _ _ (Cm F 2 (S O)) (Cm F 2 O) (CXm F 2 (S O)) (CXm F 2 O) _ _ _ = _ => exact (free_chi_1010 F beta e1 e2 x1 x2 z1 z2 z3 Hreg)
+  | |- chi _ _ _ _ _ _ (Cm F 2 (S O)) (Cm F 2 O) (CXm F 2 (S O)) (CXm F 2 (S O)) _ _ _ = _ =>
+      rewrite (energies2 F), (gibbs2 F), (chi0_free_offdiag F) by reflexivity; exact (chi_1011_zero F _ _ _ _ _ _ _ _ _ _ _ _ _)
+  | |- chi _ _ _ _ _ _ (Cm F 2 (S O)) (Cm F 2 (S O)) (CXm F 2 O) (CXm F 2 O) _ _ _ = _ =>
+      rewrite (energies2 F), (gibbs2 F), (chi0_free_offdiag F) by reflexivity; exact (chi_1100_zero F _ _ _ _ _ _ _ _ _ _ _ _ _)
+  | |- chi _ _ _ _ _ _ (Cm F 2 (S O)) (Cm F 2 (S O)) (CXm F 2 O) (CXm F 2 (S O)) _ _ _ = _ =>
+      rewrite (energies2 F), (gibbs2 F), (chi0_free_offdiag F) by reflexivity; exact (chi_1101_zero F _ _ _ _ _ _ _ _ _ _ _ _ _)
+  | |- chi _ _ _ _ _ _ (Cm F 2 (S O)) (Cm F 2 (S O)) (CXm F 2 (S O)) (CXm F 2 O) _ _ _ = _ =>
+      rewrite (energies2 F), (gibbs2 F), (chi0_free_offdiag F) by reflexivity; exact (chi_1110_zero F _ _ _ _ _ _ _ _ _ _ _ _ _)
+  | |- chi _ _ _ _ _ _ (Cm F 2 (S O)) (Cm F 2 (S O)) (CXm F 2 (S O)) (CXm F 2 (S O)) _ _ _ = _ => exact (free_chi_1111 F beta e1 e2 x1 x2 z1 z2 z3 Hreg)
+  end.
 Qed.
 
 (** Matsubara numbers: an injection zf of Z into the field (zf n = i (2n+1) pi / beta over C) *)
@@ -75,7 +98,8 @@ Proof.
   destruct (regular_swap12 _ _ _ _ _ _ _ Hreg) as [H21 [H22 [Hx1 Hx2]]].
   assert (G2 : forall a b, (a < 2)%nat -> (b < 2)%nat -> Gmn e1 e2 x1 x2 a b n2 = gfree F [e1;e2] a b (zf n2)).
   { intros a b Ha Hb. unfold Gmn. apply free_gf_diag_2; assumption. }
-  unfold chi0, delta. rewrite !(Gmn_free e1 e2 x1 x2 (zf n2) (zf n3)) by assumption. rewrite !G2 by assumption.
+  unfold chi0, delta. cbv zeta. rewrite (Gmn_free e1 e2 x1 x2 (zf n2) (zf n3) i k n1), (Gmn_free e1 e2 x1 x2 (zf n2) (zf n3) i l n1) by assumption.
+  rewrite (G2 j l), (G2 j k) by assumption.
   unfold chi0_free. rewrite !isz_zf.
   replace (n1 =? n1 + n2 - n3)%Z with (n2 =? n3)%Z.
   2:{ destruct (Z.eqb n2 n3) eqn:E1; symmetry; [apply Z.eqb_eq; apply Z.eqb_eq in E1; lia | apply Z.eqb_neq; apply Z.eqb_neq in E1; lia]. }
@@ -96,7 +120,8 @@ Proof.
   destruct (regular_swap12 _ _ _ _ _ _ _ Hreg) as [H21 [H22 [Hx1 Hx2]]].
   assert (G2 : forall a b, (a < 2)%nat -> (b < 2)%nat -> Gmn e1 e2 x1 x2 a b n2 = gfree F [e1;e2] a b (zf n2)).
   { intros a b Ha Hb. unfold Gmn. apply free_gf_diag_2; assumption. }
-  rewrite !(Gmn_free e1 e2 x1 x2 (zf n2) (zf n3)) by assumption. rewrite !G2 by assumption.
+  rewrite (Gmn_free e1 e2 x1 x2 (zf n2) (zf n3) i k n1), (Gmn_free e1 e2 x1 x2 (zf n2) (zf n3) i l n1) by assumption.
+  rewrite (G2 j l), (G2 j k) by assumption.
   unfold chi0_free. rewrite !isz_zf.
   destruct (Z.eqb n2 n3), (Z.eqb n1 n3); ring.
 Qed.
